@@ -361,13 +361,23 @@ func main() {
 				}
 			}
 		}
-		if j.o0 == uint32(w.n) && len(ts) > 3 {
-			samples.Add(map[string]interface{}{"version": verName(j.ver), "arbiters": w.n, "start_offset": j.o0, "instants": len(ts),
-				"first_boundary_instants_ns": []int64{int64(ts[len(ts)/2]), int64(ts[len(ts)/2+1])}})
-		}
 	})
 	for i := range sinks {
 		sinks[i].mergeInto(r)
+	}
+	// samples: a few of the enumerated cases written out (deterministic choice)
+	for _, sc := range []caseT{
+		{Ver: 0, N: 3, Offset: 2, TimesNs: []int64{int64(7 * time.Second), int64(23*time.Second) + 1}},
+		{Ver: 1, N: 3, Offset: 0, TimesNs: []int64{int64(9 * time.Second), int64(15*time.Second) - 1}},
+		{Ver: 1, N: 12, Offset: 12, TimesNs: []int64{int64(30 * time.Second), int64(65 * time.Second)}},
+		{Ver: 1, N: 36, Offset: 40, TimesNs: []int64{int64(100 * time.Second), int64(200 * time.Second)}},
+	} {
+		w := newWorld(sc.N, all)
+		ts := []time.Duration{time.Duration(sc.TimesNs[0]), time.Duration(sc.TimesNs[1])}
+		one := w.run(sc.Ver, sc.Offset, ts[1:])
+		ch := w.run(sc.Ver, sc.Offset, ts)
+		samples.Add(map[string]interface{}{"entry": verName(sc.Ver), "arbiters": sc.N, "start_offset": sc.Offset, "evaluate_at_ns": sc.TimesNs,
+			"one_shot": fmt.Sprintf("offset %d remainder %v", one.Offset, one.Rem), "chained": fmt.Sprintf("offset %d remainder %v", ch.Offset, ch.Rem)})
 	}
 	r.Assume = append(r.Assume,
 		"sign tolerance fixed at 5 s (the only value the node uses by default); arbiter list supplied by state.ArbitratorsMock (the view only reads its size and the on-duty key)",
